@@ -15,7 +15,8 @@ def names(mask):
 def run(prop, tier, seed, ctx):
     ctx.assumptions += ["CPython's own result of the operation on the unwrapped values is the oracle (logged environment)",
                         "proxies are the values returned by real evaluate() on a student module; user objects are "
-                        "represented by three shapes (forward-only, reflected-only, declining operators)",
+                        "represented by four shapes (forward-only, reflected-only, declining operators, and a value object with an "
+                        "attribute named `value` and the full conversion / container protocol)",
                         "containment is checked with the proxy as the container only (statement wording)"]
     ctx.cov["rule"] = ("cell = operation x placement (left/right/both/unary) x operand class x operand class enumerated by "
                        "TLC, observed on real proxies and validated by TLC against StepOk; chains = random sequences of "
@@ -38,7 +39,7 @@ def run(prop, tier, seed, ctx):
         if "harness" in o["detail"]:
             raise MachineryError("harness failed on %s: %s" % (c, o["detail"]["harness"]))
         for n in names(mask):
-            ctx.violation("C16|%s|%s|%s" % (c["op"], c["place"], n),
+            ctx.violation("C16|%s|%s|%s%s" % (c["op"], c["place"], n, "|valobj" if "valobj" in (c["a"], c["b"]) else ""),
                           "%s with proxy %s on (%s, %s): %s  (real: %s %s; proxied: %s %s; stdout %d chars)" % (
                               c["op"], c["place"], c["a"], c["b"], n, o["ev"]["real"], o["detail"].get("real_result"),
                               o["ev"]["prox"], o["detail"].get("prox_result"), o["ev"]["out"]), o)
